@@ -14,6 +14,12 @@ CHECKS = {
  'C02': dict(cat='model_checking', engine='E1', tech='explicit-state BFS over the real PointIsotherm label machine (all reachable representation states x full conversion alphabet) with reference model on every transition',
    text='The label machine of a real PointIsotherm is explored to fixpoint: every reachable representation state (quick: 540-state unit-class quotient; thorough: all 10x27x19x2 = 10260) x every convert*/convert call with omitted/current/valid/unknown arguments, executed on rebuilt real objects with filled interpolator caches. After every transition: labels accepted by the constructor, data equal the ORIGINAL data converted by the independent reference model, target reached, refusal changed nothing (combined convert: exactly the completed steps), frame untouched, no stale interpolation. Variants without thermodynamic backend / with partial properties / super-critical cover impossible targets.',
    note='One data set (pointwise conversions); reference model mc/ref_units.py; refusal = any exception; CoolProp trusted.', ref='§4 C02'),
+ 'C08': dict(cat='model_checking', engine='E1', tech='explicit-state BFS over real database files (canonical = logical table contents) against a dictionary reference model, two session modes',
+   text='Breadth-first exploration of the store: from every reachable database state every public store operation of a 38-operation alphabet (uploads with/without overwrite and auto-insert, deletions by object/name/id/retrieved object, property-type families) is executed on a copy of the real file, in a fresh-session mode and in an everything-registered-in-memory mode. Outcome kind, raw tables read through an independent connection (incl. orphan/dangling-reference invariants) and every retrieval (with and without criteria; retrieved isotherm == stored isotherm) are compared with a plain dict model on every transition. Quick: depth 3; thorough: depth 6.',
+   note='Universe of 2 adsorbates, 2 materials, 3 isotherms, cleanly storable values; depth-bounded (reported); SQLite itself trusted.', ref='§4 C08'),
+ 'C09': dict(cat='fault_enumeration', engine='E3', tech='exhaustive fault-point enumeration: SQL-statement interposer (exception instead of/after every statement, commit, close), fork+_exit at every point, strace SIGKILL at every write syscall',
+   text='27 write-operation instances (upload/overwrite/delete of adsorbates, materials, isotherms, property types on empty / unrelated / containing databases) x every statement/commit/rollback/close point the operation issues x fault kinds (4 sqlite3 exception classes raised instead of or after the statement; process exit before/after the point in a forked child); bound 2: a second fault inside the retry; thorough additionally kills the process at every write-class syscall (journal/database writes, fsync, unlink) via strace fault injection. After each fault the raw tables must equal the dict model before or after the operation, prior content must be retrievable, and the repeated call must succeed.',
+   note='Process death, not power loss; in-session retry; dict model shared with C08.', ref='§4 C09'),
 }
 
 def main():
